@@ -29,7 +29,7 @@ MANIFEST = dict(
     note='Trusted: Coq kernel + vm_compute, translate/c19_walk.py (its canonicalisation rewrites are meant to be equivalences of Python programs; on every run the rewritten filesys.py is compiled, executed and compared with the real classes on every lookup form, walks and chains - obligations translate:canonical-form-runs / -is-equivalent), zipfile, the VPK writer of vpk.py (where the bytes are put; the reader is translated; VPK.fileinfos only through a shape check), which numbered archive file is opened (C13), the OS directory semantics (RawFileSystem: exact names via os.path.isfile/open/os.walk after abspath; RootEscapeError belongs to C18). Model restrictions: ASCII case folding only in the model (non-ASCII casefold is searched on the in-memory and zip backends; VPK names are ASCII); stored names are clean relative "/" paths; ".." segments are modelled (full posixpath.normpath) and compared by correspondence but the general noise theorem covers only empty and "." segments; the walk/composition theorems assume empty or clean prefixes and folders (other spellings: correspondence and oracle) - the chain lookup theorem has no such premise; absolute paths are outside the statement; reading a slice of the wrong home is modelled as returning nothing (such readers are never recognised as whole). Which of two stored names differing only in case wins depends on container order (c19_lookup_order_matters_for_case_duplicates); VPK regroups files, see known finding case-duplicate-winner-vpk-differs. Observations (not violations): RawFileSystem.open_bin of a directory raises IsADirectoryError where the others raise FileNotFoundError; File.path of a lookup differs per backend.',
 )
 
-IMPORTS = ['Coq.Lists.List', 'Coq.NArith.NArith', 'Coq.Bool.Bool', 'SV.SM.FsChain', 'SV.SM.FsChainForms', 'SV.SM.FsChainRead', 'SV.SM.FsChainAdd', 'SV.Gen.FsWalk_gen']
+IMPORTS = ['Coq.Lists.List', 'Coq.NArith.NArith', 'Coq.Bool.Bool', 'SV.SM.FsChain', 'SV.SM.FsChainForms', 'SV.SM.FsChainRead', 'SV.SM.FsChainAdd', 'SV.SM.FsChainNoise', 'SV.Gen.FsWalk_gen']
 PRE = '''Import ListNotations. Open Scope N_scope.
 Fixpoint l1_eqb (a b : list N) : bool := match a, b with [], [] => true | x :: a', y :: b' => (x =? y) && l1_eqb a' b' | _, _ => false end.
 Fixpoint l2_eqb (a b : list (list N)) : bool := match a, b with [], [] => true | x :: a', y :: b' => l1_eqb x y && l2_eqb a' b' | _, _ => false end.
@@ -125,6 +125,24 @@ Proof.
 Qed.
 Print Assumptions today_chain_walk_with_directory_members.
 Example today_raw_get_and_walk_ops_agree : raw_get_ops = raw_walk_ops. Proof. vm_compute. reflexivity. Qed.
+(* ... and for members mounted under any spelling of a clean subfolder ("d/", "./d", "d/.", backslashes), walked with any
+   spelling of a clean folder *)
+Definition gen_noisy (f f0 : str) (m : member) : Prop :=
+  exists b fs p p0, In b [virtual_cfg; zip_cfg; vpk_cfg] /\\ m = member_of b fs p /\\ clean_fs fs = true
+                    /\\ okp p0 /\\ spells p p0 /\\ okp f0 /\\ spells f f0.
+Theorem today_chain_walk_any_spelling : forall ms f f0 x,
+  Forall (gen_noisy f f0) ms ->
+  In x (chain_walk_mode chain_dedup_mode chain_relmode chain_dedup_ops ms f) ->
+  chain_get ms (fst x) = Some (snd x).
+Proof.
+  intros ms f f0 x Hms Hin.
+  apply (c19_chain_walk_any_spelling chain_dedup_ops ms f f0 x); [vm_compute; reflexivity| |exact Hin].
+  eapply Forall_impl; [|exact Hms]. intros m [b [fs [p [p0 [Hb [-> [Hc [Hp0 [Hsp [Hf0 Hsf]]]]]]]]]].
+  exists b, fs, p, p0. split; [reflexivity|].
+  destruct Hb as [<-|[<-|[<-|[]]]]; (split; [vm_compute; reflexivity|]); (split; [vm_compute; reflexivity|]);
+    (split; [vm_compute; reflexivity|]); (split; [exact Hc|]); (split; [exact Hp0|]); (split; [exact Hsp|]); (split; [exact Hf0|exact Hsf]).
+Qed.
+Print Assumptions today_chain_walk_any_spelling.
 '''
 
 INSTANCE_THEOREM_FORMS = '''Import ListNotations.
@@ -1729,7 +1747,7 @@ def run(ck: Ck) -> None:
         from concurrent.futures import ThreadPoolExecutor
         pool = ThreadPoolExecutor(max_workers=3)
         fut_thm = pool.submit(ck.theorems, 'Props/C19.v')      # Print Assumptions of every theorem (its obligations are moved to the front below)
-        fut_compose = pool.submit(ck.coq_scratch, ''.join(f'Require Import {i}.\n' for i in IMPORTS + ['SV.SM.FsChainProofs', 'SV.SM.FsChainCompose', 'SV.SM.FsChainFormsProofs', 'SV.SM.FsChainWhole', 'SV.SM.FsChainAdd', 'SV.SM.FsChainWalkGen', 'SV.Props.C19'])
+        fut_compose = pool.submit(ck.coq_scratch, ''.join(f'Require Import {i}.\n' for i in IMPORTS + ['SV.SM.FsChainProofs', 'SV.SM.FsChainCompose', 'SV.SM.FsChainFormsProofs', 'SV.SM.FsChainWhole', 'SV.SM.FsChainAdd', 'SV.SM.FsChainWalkGen', 'SV.SM.FsChainNoise', 'SV.Props.C19'])
                                   + INSTANCE_THEOREM, 'inst_compose', 300)
         fut_forms = pool.submit(ck.coq_scratch, ''.join(f'Require Import {i}.\n' for i in IMPORTS + ['SV.SM.FsChainProofs', 'SV.SM.FsChainCompose', 'SV.SM.FsChainFormsProofs', 'SV.SM.FsChainWhole', 'SV.SM.FsChainReadProofs', 'SV.SM.FsChainMixed', 'SV.SM.FsChainAdd', 'SV.Props.C19'])
                                 + INSTANCE_THEOREM_FORMS, 'inst_forms', 300)
@@ -1743,6 +1761,7 @@ def run(ck: Ck) -> None:
             obs[f'{short}_walk_sound_form'] = f'walk_ok {cfg}'
             obs[f'{short}_walk_iterates_folded_dict'] = f'walk_over_dict {cfg}'
             obs[f'{short}_walk_no_exact_case_prefilter'] = f'negb (prefilter_case_sensitive {cfg})'
+            obs[f'{short}_walk_normalises_folder_spelling'] = f'walk_norm {cfg}'
         obs['virtual_walk_root_is_not_dot'] = 'negb (folder_root_is_dot virtual_cfg)'
         for short, cfg in (('virtual', 'virtual_cfg'), ('zip', 'zip_cfg'), ('vpk', 'vpk_cfg')):
             obs[f'{short}_keys_normalise_every_spelling'] = f'backend_keys_norm {cfg}'
@@ -1776,7 +1795,7 @@ def run(ck: Ck) -> None:
             # de-duplicates by skipping, lists prefix-relative names and every backend form is sound)
             rc, out = fut_compose.result()
             ck.obligation('instance-theorem:chain_walk_lookup_closed', rc == 0,
-                          'c19_chain_walk_lookup_closed, c19_chain_walk_every_entry_spec and c19_chain_walk_with_directory_members (raw_walk_relmode, raw_walk_ops) applied to chain_walk_mode chain_dedup_mode '
+                          'c19_chain_walk_lookup_closed, c19_chain_walk_every_entry_spec, c19_chain_walk_with_directory_members (raw_walk_relmode, raw_walk_ops) and c19_chain_walk_any_spelling applied to chain_walk_mode chain_dedup_mode '
                           'chain_relmode chain_dedup_ops over members built from virtual_cfg / zip_cfg / vpk_cfg' + ('' if rc == 0 else ': ' + out[-400:]))
             if rc != 0:
                 ck.tie_broken.append('instance theorem chain_walk_lookup_closed does not check at the generated configuration')
@@ -1847,6 +1866,8 @@ def run(ck: Ck) -> None:
             ck.explain(f'instance:{short}_keys_case_and_slash_insensitive')
         if any_key(f'lookup-{short}-unnormalised', f'walk-{short}-folder-unnormalised'):
             ck.explain(f'instance:{short}_keys_normalise_every_spelling')
+        if any_key(f'walk-{short}-'):
+            ck.explain(f'instance:{short}_walk_normalises_folder_spelling')
     for what, sub in (('get', 'lookup-raw-'), ('exists', 'lookup-raw-'), ('open', 'lookup-raw-'), ('walk', 'walk-raw-')):
         if any_key(sub):
             ck.explain(f'instance:raw_{what}_converts_slashes_only')
